@@ -14,3 +14,4 @@ VF_API void vf_tmcoef(double n, double* alp, double* bet, double* b1) {
 VF_API double vf_tm_alp(double n, int l) { TransverseMercator tm(1, 2*n/(1+n), 1); return tm._alp[l]; }
 VF_API double vf_tm_bet(double n, int l) { TransverseMercator tm(1, 2*n/(1+n), 1); return tm._bet[l]; }
 VF_API double vf_tm_b1(double n) { TransverseMercator tm(1, 2*n/(1+n), 1); return tm._b1; }
+VF_API void vf_tm_reverse(double lon0, double x, double y, double* out) { TransverseMercator::UTM().Reverse(lon0, x, y, out[0], out[1], out[2], out[3]); }
